@@ -1,4 +1,6 @@
 // detsched runtime (compiled WITHOUT the shim renames).  See api.hpp.
+#include <sys/syscall.h>
+#include <unistd.h>
 #include "detsched/api.hpp"
 #include "kit/case.hpp"
 
@@ -510,6 +512,33 @@ int epoll_wait_hook(int epfd, epoll_event* ev, int maxev, int timeout) noexcept 
     r = ::epoll_wait(epfd, ev, maxev, 2);
     if (r != 0) return r;
     if (++spins > 2500) report_stuck("deadlock", "epoll_wait never becomes ready and no other thread can run");
+    point_impl(Op::Epoll, nullptr, true);
+  }
+}
+
+long uring_enter_hook(long fd, long to_submit, long min_complete, long flags, const void* sig, long sigsz) noexcept {
+  // 1. submit (never blocks); 2. wait for completions with a bounded kernel wait (IORING_ENTER_EXT_ARG timeout), giving the run
+  // token to other threads between attempts: they are the only source of wake-ups the scheduler controls
+  const long GETEVENTS = 1, EXT_ARG = 8;
+  struct ts_t { long long tv_sec, tv_nsec; };
+  struct arg_t { unsigned long long sigmask; unsigned sigmask_sz; unsigned pad; unsigned long long ts; };
+  long submitted = 0;
+  if (to_submit > 0 || min_complete == 0) {
+    submitted = ::syscall(SYS_io_uring_enter, fd, to_submit, 0L, flags & ~GETEVENTS, sig, sigsz);
+    if (submitted < 0) return submitted;
+    point_impl(Op::Epoll, nullptr, false);
+    if (min_complete == 0) return submitted;
+  }
+  int spins = 0;
+  for (;;) {
+    bool others = false;
+    for (auto* t : g.th) if (t != tl_self && t->st == ThreadRec::Runnable) others = true;
+    ts_t ts{0, others ? 0 : 2000000};
+    arg_t arg{0, 0, 0, (unsigned long long)(uintptr_t)&ts};
+    long r = ::syscall(SYS_io_uring_enter, fd, 0L, min_complete, GETEVENTS | EXT_ARG, &arg, (long)sizeof(arg));
+    if (r >= 0) return submitted;
+    if (errno != ETIME && errno != EINTR && errno != EAGAIN && errno != EBUSY) return r;
+    if (!others && ++spins > 2500) report_stuck("deadlock", "io_uring_enter never sees a completion and no other thread can run");
     point_impl(Op::Epoll, nullptr, true);
   }
 }
